@@ -345,7 +345,29 @@ func MonRecoveryCatchUp(propName string) *Mon {
 // decides whether a node which has asked for a view change may still finish the old view (with exactly F
 // committed or lost the other N-F = M validators can still change view, so it may not).
 func MonC06() *Mon {
+	type seen struct {
+		h  uint32
+		v  byte
+		ok bool
+	}
+	before := map[*Node][]seen{}
+	beforeH := map[*Node]uint32{}
 	return &Mon{Name: "C06",
+		BeforeCall: func(n *Node, c *Call) {
+			d := n.D
+			before[n] = before[n][:0]
+			if d == nil || d.Validators == nil {
+				return
+			}
+			beforeH[n] = d.BlockIndex
+			for _, hv := range d.LastSeenMessage {
+				if hv == nil {
+					before[n] = append(before[n], seen{})
+				} else {
+					before[n] = append(before[n], seen{hv.Height, hv.View, true})
+				}
+			}
+		},
 		AfterCall: func(n *Node, c *Call) {
 			d := n.D
 			if d == nil || d.Validators == nil || n.Crashed {
@@ -353,6 +375,15 @@ func MonC06() *Mon {
 			}
 			N := len(d.Validators)
 			F := refF(N)
+			// who counts as lost rests on the last (height, view) each validator was heard at: within a height that
+			// record only moves forward (a late message of an old view does not make a live validator lost again)
+			if b := before[n]; c.Kind != CStart && c.Kind != CReset && beforeH[n] == d.BlockIndex && len(b) == len(d.LastSeenMessage) {
+				for i, hv := range d.LastSeenMessage {
+					if b[i].ok && b[i].h == d.BlockIndex && (hv == nil || hv.Height < b[i].h || (hv.Height == b[i].h && hv.View < b[i].v)) {
+						n.W.Fail("C06", fmt.Sprintf("node %d at (%d,%d): validator %d was last heard at (%d,%d), after %s the record says %v", n.ID, d.BlockIndex, d.ViewNumber, i, b[i].h, b[i].v, c.Kind, hv), "last-seen-regressed")
+					}
+				}
+			}
 			if d.F() != F || d.M() != N-F || d.N() != N {
 				n.W.Fail("C06", fmt.Sprintf("node %d: N()=%d F()=%d M()=%d with %d validators", n.ID, d.N(), d.F(), d.M(), N), "quorum-arithmetic")
 			}
